@@ -6,7 +6,7 @@ CONSTANTS
   SaltIds <- S_All
   SaltWith <- W_Water
   KShifts <- KS_Wide
-  SaltKShifts = {-2, 0, 3, 5, 8}
+  SaltKShifts <- SK_Wide
   InitSeq <- I_Many
   InitPatterns <- IP_Many
   SolidInits <- SI_Many
